@@ -99,7 +99,7 @@ def conclude(prop, spec, po, outcome, known):
         unknown.sort(key=lambda v: (len(v[0]), v[0]))
         first = unknown[0]
         path = core.write_replay(prop, {
-            "property": prop, "kind": "failing-input", "ops": [first[0]],
+            "property": prop, "kind": "failing-input", "ops": first[0].split("\n"),
             "readable": runner._readable(first[0]), "why": first[1], "impl": first[2], "spec": first[3],
             "more": [{"op": runner._readable(v[0]), "why": v[1]} for v in unknown[1:20]],
             "count": len(unknown)})
